@@ -97,13 +97,12 @@ Definition a_redirs (pf : pflags) (rs : option (list redir)) : list atom :=
   | Some l => flat_map (fun r => (if f_redir_sep pf then [SP] else []) ++ a_redir r) l
   end.
 
-(** [Display for SimpleCommand]: prefix, name, suffix, the non-empty parts separated by a blank *)
+(** [Display for SimpleCommand]: prefix items, name, suffix items; whatever is present is
+    separated by single blanks *)
+Definition simple_items (pre : list item) (name : option str) (suf : list item) : list item :=
+  pre ++ match name with Some w => [IWord w] | None => [] end ++ suf.
 Definition a_simple (pre : list item) (name : option str) (suf : list item) : list atom :=
-  let p := sep_by a_item pre in
-  let n := match name with Some w => [Wd w] | None => [] end in
-  let s := sep_by a_item suf in
-  let pn := match p, n with [], _ => n | _, [] => p | _, _ => p ++ SP :: n end in
-  match pn, s with [], _ => s | _, [] => pn | _, _ => pn ++ SP :: s end.
+  sep_by a_item (simple_items pre name suf).
 
 Definition post_text (p : postact) : string :=
   match p with PBreak => ";;" | PFall => ";&" | PCont => ";;&" end.
@@ -123,6 +122,11 @@ Definition a_for_head (pf : pflags) (v : str) (vals : option (list str)) : list 
   else
     [KW "for"; SP; Wd v] ++
     match vals with Some l => SP :: KW "in" :: flat_map (fun w => [SP; Wd w]) l | None => [] end.
+
+Definition is_clnil (r : clrest) : bool := match r with ClNil => true | _ => false end.
+(** [Display for CompoundList]: the separator behind an item; the ; of the last item is left out *)
+Definition a_sepop (async last : bool) : list atom :=
+  if last then (if async then [OP "&"] else []) else [OP (if async then "&" else ";")%string].
 
 Section Atoms.
 Variable pf : pflags.
@@ -172,22 +176,12 @@ with a_aorest (r : aorest) : list atom :=
   end
 with a_clist (l : clist) : list atom :=
   match l with
-  | CList a async r =>
-      a_andor a ++
-      match r with
-      | ClNil => if async then [OP "&"] else []
-      | _ => [OP (if async then "&" else ";")%string]
-      end ++ a_clrest r
+  | CList a async r => a_andor a ++ a_sepop async (is_clnil r) ++ a_clrest r
   end
 with a_clrest (r : clrest) : list atom :=
   match r with
   | ClNil => []
-  | ClCons a async r' =>
-      [ANl] ++ a_andor a ++
-      match r' with
-      | ClNil => if async then [OP "&"] else []
-      | _ => [OP (if async then "&" else ";")%string]
-      end ++ a_clrest r'
+  | ClCons a async r' => [ANl] ++ a_andor a ++ a_sepop async (is_clnil r') ++ a_clrest r'
   end
 with a_elses (es : elses) : list atom :=
   match es with
